@@ -3,6 +3,7 @@
 //!   pv-replay replay <harness> '<input>'
 //! Last stdout line is a JSON object:
 //!   {"harness":..,"cases":N,"distinct_nontrivial":M,"bound":"..","failures":[{"fn":..,"input":..,"expected":..,"got":..,"class":..}]}
+mod clpfd;
 mod clpz;
 mod fd;
 mod hooks;
@@ -34,6 +35,8 @@ fn main() {
         ("replay", "fd") => fd::replay(&args[3]),
         ("search", "search") => search::search(&tier, seed, only.as_deref()),
         ("replay", "search") => search::replay(&args[3]),
+        ("search", "clpfd") => clpfd::search(&tier, seed, only.as_deref()),
+        ("replay", "clpfd") => clpfd::replay(&args[3]),
         ("search", "hooks") => hooks::search(&tier, only.as_deref()),
         ("replay", "hooks") => hooks::replay(&args[3]),
         ("search", "clpz") => clpz::search(&tier, only.as_deref()),
